@@ -56,7 +56,10 @@ def gen_history(seed, tier, *, n_ops=(2, 6), genkw=None,
                                                             cut_mode=rng.choice(["exc", "death"]))))
         elif k == "intr":
             cfg = _cfg(rng, world)
-            ops.append(dict(op="run", cfg=cfg, faults=dict(interrupt_at=rng.randrange(1, 8))))
+            if rng.random() < 0.5:
+                ops.append(dict(op="run", cfg=cfg, faults=dict(interrupt_at=rng.randrange(1, 8))))
+            else:
+                ops.append(dict(op="run", cfg=cfg, faults=dict(interrupt_at_op=rng.randrange(1, 25))))
         elif k == "update" and pure:
             ops.append(dict(op="update", store=rng.choice(pure)))
         elif k == "delete" and deletable:
